@@ -73,13 +73,18 @@ CLAIMS = {
     "C14": bounded("BOUNDED (deciding): stop-and-continue at every interruption index, save/restore round trip (dill) vs an uninterrupted run. PROVED support: the driver loop is "
                    "re-entrant for an arbitrary existing history (C13 contract)."),
     "C15": mixed("PROVED for every grid size/sorted grid with the distribution abstracted by its interval moments (A-DIST): weighted trapezoidal weights are non-negative and equal "
-                 "the per-interval moment formula; lemmas: uniform => trapezoidal/(b-a); E[cf+e]=cE[f]+e, Var[cf+e]=c^2 Var[f], constant model; variance never negative (1..3 outputs). "
+                 "the per-interval moment formula; lemmas: uniform => trapezoidal/(b-a); E[cf+e]=cE[f]+e, Var[cf+e]=c^2 Var[f], constant model; variance never negative (1..3 outputs); get_middle_weighted with an abstract strictly increasing cdf and its inverse ppf returns a point strictly inside the interval "
+                 "that halves its probability. "
                  "BOUNDED: real distributions (uniform/triangle/normal), weighted midpoint, sums to 1, the real UQ pipeline."),
     "C16": mixed("PROVED for every dimension with symbolic coordinates: calculate_R_value_analytically returns the product of the 1-D L2 products of the two hat functions (Gram entry), 0 for non-adjacent; "
-                 "lemma: the closed forms are the integrals. BOUNDED: matrix assembly (uniform / dimension-wise), SPD, mass lumping, right-hand side on all three size paths, "
+                 "lemma: the closed forms are the integrals; hat_function_non_symmetric (standard basis) and hat_function (uniform grid) return the product of the 1-D hat values for every dimension; "
+                 "check_adjacency is true exactly when the indices differ by at most one in every dimension. BOUNDED: matrix assembly (uniform / dimension-wise), SPD, mass lumping, right-hand side on all three size paths, "
                  "scalar vs vectorised hats, normalisation."),
-    "C17": bounded("Relational over configurations (reuse on/off, both sides of the 200-point threshold): no single-call contract expresses it; BOUNDED: both configurations run on the "
-                   "same data and refinement history, surpluses/scheme/densities equal to 1e-9."),
+    "C17": bounded("Relational over configurations (reuse on/off, both sides of the 200-point threshold): no single-call contract expresses the whole property. "
+                   "PROVED kernel (d in {1,2}, symbolic coordinates): get_domain_overlap_width returns the cache key (ascending overlap widths, ascending node distances; zeros when not "
+                   "adjacent), and for hats of grid nodes equal keys imply equal Gram entries (SMT lemma over the value contract of calculate_R_value_analytically), i.e. a hit of the "
+                   "matrix-entry cache returns what a recomputation would. BOUNDED (deciding): both configurations run on the same data and refinement history, "
+                   "surpluses/scheme/densities equal to 1e-9; right-hand-side reuse, data bins, size threshold."),
     "C18": bounded("numpy/sklearn-based bookkeeping mostly outside the verified subset (PROVED kernel: split_pieces cuts samples and labels at the same index, prefix/suffix, "
                    "nothing lost); BOUNDED (deciding): random operation sequences (<=8 ops over 14 operations) on data sets incl. empty, single, ties, "
                    "unlabelled: range ends, revert restores, multiset of (sample,label) preserved, attributes carried, refusals without modification."),
